@@ -546,6 +546,34 @@ func flags(repo string) []flag {
 		})
 		add("sendTeardownNoRst", ok && n == 3, fmt.Sprintf("teardown calls=%d", n))
 	}
+	// cs.teardownCancelsFirst: the teardown closure of NewStream cancels the stream context BEFORE it
+	// unregisters the call from the multiplexer
+	{
+		fd := cs.fn("", "NewStream")
+		ok := false
+		if fd != nil {
+			inspect(fd, func(x ast.Node) bool {
+				as, isAs := x.(*ast.AssignStmt)
+				if !isAs || len(as.Lhs) != 1 || str(as.Lhs[0]) != "cs.teardown" {
+					return true
+				}
+				if fl, isFl := as.Rhs[0].(*ast.FuncLit); isFl {
+					iCancel, iTeardown := -1, -1
+					for i, st := range fl.Body.List {
+						switch str(st) {
+						case "cancel()":
+							iCancel = i
+						case "teardown()":
+							iTeardown = i
+						}
+					}
+					ok = iCancel >= 0 && iTeardown >= 0 && iCancel < iTeardown
+				}
+				return true
+			})
+		}
+		add("teardownCancelsFirst", ok, "")
+	}
 	// cc.openFailureTearsDown
 	{
 		fd := cl.fn("ClientConn", "newStream")
